@@ -388,7 +388,9 @@ func (c *Client) Connect(ctx context.Context, t Transport, opts *ClientSessionOp
 		_ = cs.Close()
 		return nil, err
 	}
-	if !slices.Contains(supportedProtocolVersions, res.ProtocolVersion) {
+	// The initialize handshake only exists before protocolVersion20260728: a
+	// server cannot select that version (or a later one) by answering initialize.
+	if !slices.Contains(supportedProtocolVersions, res.ProtocolVersion) || res.ProtocolVersion >= protocolVersion20260728 {
 		_ = cs.Close()
 		return nil, unsupportedProtocolVersionError{res.ProtocolVersion}
 	}
